@@ -523,7 +523,10 @@ def check_non_border_start(ctx, P, m, s, what, kw=False):
     except Exception as e:
         if type(e).__name__ in ("Violation", "Inconclusive", "HarnessError"):
             raise
-        ctx.check(type(e) is Exception and "not on mesh border" in str(e), "cycle:non-border-start",
+        # documented: "Raises: Exception: Fails if 'starting_point' not on the border" - any deliberate rejection qualifies (the bare
+        # Exception of the pinned library, a ValueError, or any exception that names the border); an accidental StopIteration /
+        # KeyError / IndexError out of the walk itself does not
+        ctx.check(type(e) in (Exception, ValueError) or "border" in str(e).lower(), "cycle:non-border-start",
                   f"{what}: extract_border_cycle(m,{s}) raised {type(e).__name__}: {e}")
 
 
